@@ -71,9 +71,8 @@ def _stratify(cases, limit, rnd, key):
 
 
 def _opkey(c):
-    h = [s for s in c["hist"] if s["kind"] != "run"]
-    return "/".join(s["op"] for s in h[-2:]) + ("!" if c["st"] == "err" else "") + \
-        ("+run" if any(s["kind"] == "run" for s in c["hist"]) else "")
+    # the operations and where the runs (looks) fall between them; the kind of look is drawn at random
+    return "/".join("R" if s["kind"] == "run" else s["op"] for s in c["hist"][-4:]) + ("!" if c["st"] == "err" else "")
 
 
 def _start_tests(thorough, out):
@@ -168,7 +167,7 @@ def run(chk):
 
     # ------------------------------------------------------------ drivers (larger signals, readers)
     out = dr.Result()
-    nd = 1500 if thorough else 260
+    nd = 1500 if thorough else 240
     drv_seed = chk.seed * 7919 + 1
     drnd = random.Random(drv_seed)
     scheds = ["synchronous", "threads", a_schedule(1), a_schedule(2), "synchronous", a_schedule(3)]
@@ -184,8 +183,8 @@ def run(chk):
 
     # ------------------------------------------------------------ pipelines generated by TLC
     cases = []
-    for name, fut, limit in (("d1", d1_f, 9000 if thorough else 600), ("d2", d2_f, 8000 if thorough else 600),
-                             ("d2r", d2r_f, 2000 if thorough else 250)):
+    for name, fut, limit in (("d1", d1_f, 9000 if thorough else 500), ("d2", d2_f, 8000 if thorough else 500),
+                             ("d2r", d2r_f, 2000 if thorough else 350)):
         r, path = fut.result()
         chk.add_tlc("gen:" + name, r)
         if not r.ok:
